@@ -3,7 +3,7 @@
    `eval fuel st cur e` is the reference interpreter (Lang/Eval.v): st = all frames + printed
    output, cur = the current frame; results are (state, Val v | Sig s | OutOfFuel). *)
 From Coq Require Import ZArith String List Bool.
-From NV Require Import Lang.Syntax Lang.Eval Lang.Eval_proofs Lang.Eval_rules Lang.Eval_params Lang.Eval_wf.
+From NV Require Import Lang.Syntax Lang.Eval Lang.Eval_proofs Lang.Eval_rules Lang.Eval_rules2 Lang.Eval_params Lang.Eval_wf.
 Import ListNotations.
 Open Scope string_scope.
 Open Scope list_scope.
@@ -405,6 +405,45 @@ Theorem C05_run_wf : forall n e st' r, run n e = (st', r) ->
 Proof. exact run_wf. Qed.
 Print Assumptions C05_run_wf.
 
+(* switch: refusing arms are skipped, the FIRST accepting arm runs, in a fresh frame holding its
+   binding; no accepting arm is an error *)
+Theorem C05_switch_first_match : forall rec skipped p body rest st cur v,
+  forallb (fun arm => negb (pat_accepts (fst arm) v)) skipped = true ->
+  pat_accepts p v = true ->
+  let st1 := mkState (frames st ++ map (fun _ => mkFrame (Some cur) []) skipped) (out st) in
+  switch_arms rec st cur v (skipped ++ (p, body) :: rest) =
+  match p with
+  | PBind x => rec (mkState (frames st1 ++ [mkFrame (Some cur) [(x, v)]]) (out st)) (List.length (frames st1)) body
+  | _ => rec (fst (push_frame st1 cur)) (List.length (frames st1)) body
+  end.
+Proof. exact switch_first_match. Qed.
+Print Assumptions C05_switch_first_match.
+
+Theorem C05_switch_no_match : forall rec arms st cur v,
+  forallb (fun arm => negb (pat_accepts (fst arm) v)) arms = true ->
+  switch_arms rec st cur v arms =
+  (mkState (frames st ++ map (fun _ => mkFrame (Some cur) []) arms) (out st), Sig (SThrow VErr)).
+Proof. exact switch_no_match. Qed.
+Print Assumptions C05_switch_no_match.
+
+(* eval: the sub-program runs in place (same frame, signals included); a value thrown through
+   the builtin comes out as an opaque error string *)
+Theorem C05_eval_builtin_rule : forall n st cur e st1 r,
+  eval n st cur e = (st1, r) ->
+  eval (S n) st cur (EEval e) = (st1, match r with Sig (SThrow _) => Sig (SThrow VErr) | _ => r end).
+Proof. exact eval_builtin_rule. Qed.
+Print Assumptions C05_eval_builtin_rule.
+
+(* a, b := e and a, b = e *)
+Theorem C05_unpack_rule : forall n st cur xs e st1 l (decl : bool),
+  eval n st cur e = (st1, Val (VList l)) ->
+  eval (S n) st cur (if decl then EDeclL xs e else EAssignL xs e) =
+  if Nat.eqb (List.length l) (List.length xs)
+  then bindR ((if decl then declare_all else assign_all) st1 cur (combine xs l)) (fun st2 _ => (st2, Val VNull))
+  else (st1, Sig (SThrow VErr)).
+Proof. exact unpack_rule. Qed.
+Print Assumptions C05_unpack_rule.
+
 (* non-vacuity: a loop variable and a variable declared in the body are gone after the loop,
    the outer x is still 1 *)
 Example C05_example_scopes :
@@ -515,3 +554,14 @@ Example C05_example_wf :
     run 20 (ECall (ELam [] (ESeq [EDecl "c" (EInt 0); ELam [] (EVar "c")] false)) []) = (st', Val (VClos ps b env)) /\
     env < len st' /\ vok (len st') (VClos ps b env) = true.
 Proof. do 4 eexists. split; [reflexivity|]. split; [cbn; repeat constructor|reflexivity]. Qed.
+
+(* switch picks the first accepting arm; eval declares into the caller's frame; unpacking *)
+Example C05_example_switch_eval_unpack :
+  snd (run 20 (ESeq [EDeclL ["a"; "b"] (EList [(false, EInt 1); (false, EInt 2)]);
+                     EEval (EDecl "c" (EInt 3));
+                     EList [(false, ESwitch (EVar "b") [(PLit 1, EStr "one"); (PLit 2, EStr "two"); (PWild, EStr "other")]);
+                            (false, ETry (ESwitch (EVar "c") [(PLit 1, EInt 0)]) "e" (EStr "none"));
+                            (false, EVar "c");
+                            (false, ETry (EDeclL ["x"; "y"] (EList [(false, EInt 1)])) "e" (EStr "short"))]] false))
+  = Val (VList [VStr "two"; VStr "none"; VInt 3; VStr "short"]).
+Proof. reflexivity. Qed.
